@@ -25,12 +25,12 @@ theorem upd_other {α : Type} (f : Nat → α) (i j : Nat) (v : α) (h : j ≠ i
 
 /-! ### fallback generator, atomic increment -/
 
-structure FbInv (p : Nat) (g : FbGen) : Prop where
+structure FbInv (p : FbPrefix) (g : FbGen) : Prop where
   pfx : g.pfx = p
   nodup : g.out.Nodup
   bound : ∀ x ∈ g.out, x.pfx = p ∧ x.n ≤ g.counter
 
-theorem fbInv_step (p : Nat) (g : FbGen) (i : Nat) (h : FbInv p g) (hb : g.counter + 1 < u64) :
+theorem fbInv_step (p : FbPrefix) (g : FbGen) (i : Nat) (h : FbInv p g) (hb : g.counter + 1 < u64) :
     FbInv p (fbStep true g i) ∧ (fbStep true g i).counter = g.counter + 1 := by
   have hm : (g.counter + 1) % u64 = g.counter + 1 := Nat.mod_eq_of_lt hb
   simp only [fbStep, if_true, hm]
@@ -47,7 +47,7 @@ theorem fbInv_step (p : Nat) (g : FbGen) (i : Nat) (h : FbInv p g) (hb : g.count
     · exact ⟨h.pfx, Nat.le_refl _⟩
     · exact ⟨(h.bound x hx).1, Nat.le_succ_of_le (h.bound x hx).2⟩
 
-theorem fbInv_run (p : Nat) (sched : List Nat) :
+theorem fbInv_run (p : FbPrefix) (sched : List Nat) :
     ∀ g : FbGen, FbInv p g → g.counter + sched.length < u64 →
       FbInv p (fbRun true g sched) ∧ (fbRun true g sched).counter = g.counter + sched.length := by
   induction sched with
@@ -61,7 +61,7 @@ theorem fbInv_run (p : Nat) (sched : List Nat) :
     refine ⟨this.1, ?_⟩
     rw [this.2, hc]; simp only [List.length_cons]; omega
 
-theorem fbInv_new (p : Nat) : FbInv p (fbNew p) :=
+theorem fbInv_new (p : FbPrefix) : FbInv p (fbNew p) :=
   ⟨rfl, by simp [fbNew], by intro x hx; simp [fbNew] at hx⟩
 
 /-- ids already handed out stay handed out -/
@@ -80,6 +80,61 @@ theorem fbRun_mono (a : Bool) (sched : List Nat) :
     intro g x hx
     simp only [fbRun, List.foldl_cons]
     exact ih _ x (fbStep_mono a g i x hx)
+
+/-! ### creation of fallback generators: serial numbers make prefixes distinct whatever the clock says -/
+
+theorem fbProgram_serials (gs : List (Nat × List Nat)) : ∀ created : Nat, created + gs.length < u64 →
+    ∀ a ∈ fbProgram true created gs, created < a.1.serial ∧ a.1.serial ≤ created + gs.length := by
+  induction gs with
+  | nil => intro c _ a ha; simp [fbProgram] at ha
+  | cons g rest ih =>
+    intro c hb a ha
+    obtain ⟨clk, s⟩ := g
+    simp only [List.length_cons] at hb
+    have hm : (c + 1) % u64 = c + 1 := Nat.mod_eq_of_lt (by omega)
+    simp only [fbProgram, if_true, hm, List.mem_cons] at ha
+    simp only [List.length_cons]
+    rcases ha with rfl | ha
+    · simp only; omega
+    · have := ih (c + 1) (by omega) a ha
+      omega
+
+theorem fbProgram_pairwise (gs : List (Nat × List Nat)) : ∀ created : Nat, created + gs.length < u64 →
+    (fbProgram true created gs).Pairwise (fun a b => a.1 ≠ b.1) := by
+  induction gs with
+  | nil => intro c _; simp [fbProgram]
+  | cons g rest ih =>
+    intro c hb
+    obtain ⟨clk, s⟩ := g
+    simp only [List.length_cons] at hb
+    have hm : (c + 1) % u64 = c + 1 := Nat.mod_eq_of_lt (by omega)
+    simp only [fbProgram, if_true, hm]
+    rw [List.pairwise_cons]
+    refine ⟨?_, ih (c + 1) (by omega)⟩
+    intro b hbm e
+    have := (fbProgram_serials rest (c + 1) (by omega) b hbm).1
+    rw [← e] at this
+    simp only at this
+    omega
+
+theorem fbProgram_sched (w : Bool) (gs : List (Nat × List Nat)) : ∀ created : Nat,
+    ∀ a ∈ fbProgram w created gs, ∃ g ∈ gs, a.2 = g.2 := by
+  induction gs with
+  | nil => intro c a ha; simp [fbProgram] at ha
+  | cons g rest ih =>
+    intro c a ha
+    obtain ⟨clk, s⟩ := g
+    cases w
+    · simp only [fbProgram, Bool.false_eq_true, if_false, List.mem_cons] at ha
+      rcases ha with rfl | ha
+      · exact ⟨(clk, s), by simp, rfl⟩
+      · obtain ⟨g, hg, e⟩ := ih c a ha
+        exact ⟨g, by simp [hg], e⟩
+    · simp only [fbProgram, if_true, List.mem_cons] at ha
+      rcases ha with rfl | ha
+      · exact ⟨(clk, s), by simp, rfl⟩
+      · obtain ⟨g, hg, e⟩ := ih _ a ha
+        exact ⟨g, by simp [hg], e⟩
 
 /-! ### sno generator with `New` serialised -/
 
